@@ -67,8 +67,7 @@ def _code(e, s, flags, ident, nilx):
     out = [chr(48 + c1) + chr(48 + c2)]
     if 'fn' in flags:
         base = chr(48 + c1) + chr(48 + c1)
-        # c5 = noteq-fn + 2*deep= ; deep= is not part of the property: accept both values
-        out = [out[0] + base + chr(48 + (0 if e else 1) + 2 * d) for d in (0, 1)]
+        out = [out[0] + base + chr(48 + (0 if e else 1))]
     if 'lookup' in flags:
         lk = '3' if (e or nilx) else '0'
         out = [o + lk for o in out]
@@ -148,6 +147,7 @@ class C03:
         self.sigs_done = set()
         self.sym_confirmed = set()
         self.collect = None
+        self.unconfirmed = []
         self.max_sigs_per_law = 3
 
     # ---- violations ------------------------------------------------------------------------------
@@ -172,8 +172,8 @@ class C03:
         # replay twice in fresh processes before printing (DESIGN 1.3); a failure that does not
         # reproduce is a harness error, never a VIOLATION line
         if not self.confirm(law, [m for m in (mi, mj, via) if m is not None]):
-            raise HarnessError("law %s failed in part %s but not when the same expressions were re-evaluated in a "
-                               "fresh process: x = %s | y = %s" % (law, part, mi.expr[:300], mj.expr[:300] if mj else ""))
+            self.unconfirmed.append("law %s in part %s: x = %s | y = %s" % (law, part, mi.expr[:300], mj.expr[:300] if mj else ""))
+            return
         exprs = [mi.expr] + ([mj.expr] if mj is not None else [])
         what = "%s [%s] %s" % (law, part, detail)
         what += " | x = %s" % mi.expr[:300]
@@ -1046,7 +1046,12 @@ def sym_histories(nnames, depth, grow=True):
     return out
 
 
-def part_symbols(c):
+SHALLOW = 4
+
+
+def part_symbols(c, phase):
+    """phase 'shallow': depths 1..SHALLOW (run first: cheap, and where realistic cache bugs show);
+    phase 'deep': the remaining depths (run last, budget permitting)."""
     chk = c.chk
     bits = 18
     nfill = 9000
@@ -1064,11 +1069,14 @@ def part_symbols(c):
             raise HarnessError("symfind returned non-colliding names")
         names_j = "[%s]" % " ".join('"%s"' % nm for nm in names)
         tag = "symbols/%dnames" % nnames
-        done_grow = done_plain = 0
+        prev = chk.cov["parts"].get(tag, {})
+        done_grow = prev.get("depth_completed_with_grow", 0)
+        done_plain = prev.get("depth_completed", 0)
         aborted = False
-        for d in range(1, d_plain + 1):
+        depths = range(1, min(SHALLOW, d_plain) + 1) if phase == "shallow" else range(SHALLOW + 1, d_plain + 1)
+        for d in depths:
             with_grow = d <= d_grow
-            if chk.out_of_time(0.8):
+            if phase == "deep" and chk.out_of_time(0.8):
                 chk.cap("%s: history depth %d not started (budget)" % (tag, d))
                 break
             hs = sym_histories(nnames, d, grow=with_grow)
@@ -1117,11 +1125,16 @@ def part_symbols(c):
                 done_grow = d
             done_plain = d
             chk.part(tag, **{"histories_depth_%d%s" % (d, "" if with_grow else "_no_grow"): len(hs)})
-        chk.part(tag, names=" ".join(names), low_bits=bits, fillers=nfill, depth_completed_with_grow=done_grow,
-                 depth_completed=done_plain)
+        chk.cov["parts"].setdefault(tag, {}).update(names=" ".join(names), low_bits=bits, fillers=nfill,
+                                                    depth_completed_with_grow=done_grow, depth_completed=done_plain)
         if aborted:
             break
     chk.part("symbols", histories=total_hist)
+    if phase == "deep":
+        for (nnames, d_grow, d_plain) in plans:
+            got = chk.cov["parts"].get("symbols/%dnames" % nnames, {}).get("depth_completed", 0)
+            if got < d_plain and not any(("symbols/%dnames" % nnames) in x for x in chk.cov["caps_hit"]):
+                chk.cap("symbols/%dnames: stopped at depth %d of %d" % (nnames, got, d_plain))
 
 
 def _sym_ops(hist, nfill):
@@ -1207,7 +1220,7 @@ def _sym_violation(self, tag, names, nfill, hist, what, sig, context=()):
             return
         if not context:
             break
-    raise HarnessError("symbol history [%s] failed in the batch (%s) but not when replayed in a fresh process" % (hist, what[:200]))
+    self.unconfirmed.append("symbol history [%s] failed in the batch (%s)" % (hist, what[:200]))
 
 
 C03.sym_violation = _sym_violation
@@ -1246,6 +1259,8 @@ def main():
         chk.part("timing", **{name + "_s": round(_time.time() - t, 1)})
         return r
 
+    if want("symbols"):
+        timed("symbols_shallow", part_symbols, c, "shallow")
     classes = None
     if want("universe"):
         classes = timed("universe", part_universe, c)
@@ -1263,7 +1278,13 @@ def main():
     if want("tuples"):
         timed("tuples", part_tuples, c)
     if want("symbols"):
-        timed("symbols", part_symbols, c)
+        timed("symbols_deep", part_symbols, c, "deep")
+    if c.unconfirmed:
+        for u in c.unconfirmed[:5]:
+            chk.cap("failure seen once but not reproduced in a fresh process: " + u[:300])
+        if not chk.violations:
+            raise HarnessError("%d failures did not reproduce when re-evaluated in a fresh process; first: %s" % (
+                len(c.unconfirmed), c.unconfirmed[0][:600]))
     chk.cov["bound_completed"] = ("universe all pairs; struct key subsets <= %d keys all orders; dup sequences <= %d; "
                                   "tuples depth 2; symbol histories depth %s" % (
                                       5 if chk.quick else 6, 4 if chk.quick else 5,
